@@ -217,9 +217,9 @@ PROPS['C06'] = dict(
     ],
     bounds='differential against reference models (textbook rANS; exact wide-integer range coding with the documented sealing rule, no held-back-word bookkeeping): k <= 3 symbols '
            'from the empty coder and from any invariant / Normal raw state, any (cum,p); u32/u64: k <= 2 (ANS), k = 1 (range; the wide integer is a u128)',
-    outside='messages longer than k symbols (covered only through the from-any-state one-step form); the byte-exact published example vectors are pinned by the repository\'s own '
-            'doc tests (tests/readme.rs, doc tests), which this check does not re-run',
+    outside='messages longer than k symbols (covered only through the from-any-state one-step form); the published example vectors other than the README rANS / range-coding pair (those two are pinned natively by bin/refpin on every run)',
     assumptions=['reference models live in /verif/harness/src/kernels/refmodel.rs; they share no code with the implementation'],
+    native=[('c06_refpin', 'refpin')],
 )
 
 PROPS['C12'] = dict(
